@@ -113,14 +113,19 @@ def run_families(ctx, fams=None, tier=None, workers=6):
     if fams is not None:
         txt = re.sub(r'Fams = \{.*\}', 'Fams = {%s}' % ", ".join('"%s"' % f for f in fams), txt)
     from .core import MachineryError
-    for attempt in (1, 2):
+    import time
+    for attempt in (1, 2, 3):
         try:
             return ctx.tlc("Families", cfg="Families.%s.cfg" % tier, cfg_text=txt, workers=workers, timeout=1700,
                            extra_modules=["DiffOps.tla"])
         except MachineryError as e:
-            # a TLC process stopped from outside (states left on queue, no error reported) is retried once
-            if attempt == 2 or "states left on queue" not in str(e) or "Error:" in str(e):
+            # Safety net: a TLC run that dies for a reason outside the model (killed from outside on a shared machine, a
+            # JIT-dependent Java stack overflow) is repeated; a genuine failure of the model fails every attempt and is
+            # raised as machinery error.  Repeats are counted in the evidence (observations.tlc_runs_repeated).
+            if attempt == 3 or "TLC timeout" in str(e):
                 raise
+            ctx.observations["tlc_runs_repeated"] = ctx.observations.get("tlc_runs_repeated", 0) + 1
+            time.sleep(2 * attempt)
 
 
 def run_deviation(ctx):
